@@ -556,6 +556,9 @@ func mergePattern(a, b string) string {
 // Contains traverses through the registered handlers to see if
 // any of them matches the predicate test.
 func (m *Mux) Contains(test func(h Handler) bool) bool {
+	if m.root.hs != nil && test(m.root.hs.Handler) {
+		return true
+	}
 	return contains(m.root, test)
 }
 
